@@ -100,7 +100,7 @@ func (it *Interp) intrinsic(name string, fn *ssa.Function, a []Val) Val {
 		first := it.ex.reach[id] == 1
 		it.ex.mu.Unlock()
 		if first {
-			r, vals := p.s.ModelWith(nil, p.sourceTerms())
+			r, vals := p.s.ModelWith(nil, p.queryTerms())
 			if r == "sat" {
 				c := p.buildCex("reach:"+id, "reach", "", vals)
 				it.ex.mu.Lock()
@@ -167,6 +167,8 @@ func (it *Interp) intrinsic(name string, fn *ssa.Function, a []Val) Val {
 		return Bool(panicked)
 	case "Note":
 		p.notes = append(p.notes, it.describe(a[0]))
+		return nil
+	case "RegisterInterfaces":
 		return nil
 	case "Abstract":
 		it.abstracted[it.cstr(a[0], "function name")] = true
